@@ -80,6 +80,9 @@ func runCrash(r *Runner) {
 		}
 	}
 	if r.C.Crash != nil {
+		if !ctx.pinFits(r.C.Crash) {
+			return
+		}
 		ctx.checkImage(r.C.Crash.Pos, r.C.Crash.Cut, r.C.Crash.Power, r.C.Crash.Pos2-1)
 		return
 	}
@@ -834,4 +837,46 @@ func (ctx *crashCtx) mergeAgain(cfg Config) func(db *kv.DB, rec *recovery) *kv.D
 		r.inc("second_merge_rounds")
 		return db
 	}
+}
+
+// pinFits checks that a pinned crash image is one the run can produce: the position exists and a power-loss cut
+// only drops bytes that are not covered by a sync at that position. A pin that does not fit (the case was shrunk
+// or the engine changed since the file was written) is no scenario at all: the run is abandoned, never judged.
+func (ctx *crashCtx) pinFits(c *Crash) bool {
+	r := ctx.r
+	if c.Pos < 0 || c.Pos > len(ctx.journal) {
+		r.Aborted = "the pinned crash position does not exist in this run"
+		return false
+	}
+	if len(c.Cut) == 0 {
+		return true
+	}
+	unsynced := map[int]bool{}
+	for _, f := range vos.Replay(nil, ctx.journal, c.Pos, nil).Inodes {
+		for _, idx := range f.Unsynced {
+			unsynced[idx] = true
+		}
+	}
+	for idx, keep := range c.Cut {
+		if !unsynced[idx] || keep < 0 || keep > len(ctx.journal[idx].Data) {
+			r.Aborted = fmt.Sprintf("the pinned power-loss cut drops bytes of journal entry %d, which are durable (or absent) at position %d of this run", idx, c.Pos)
+			return false
+		}
+	}
+	// tail loss only: within one file, everything behind a shortened entry is gone too
+	for _, f := range vos.Replay(nil, ctx.journal, c.Pos, nil).Inodes {
+		short := false
+		for _, idx := range f.Unsynced {
+			keep, cutHere := c.Cut[idx]
+			full := len(ctx.journal[idx].Data)
+			if short && (!cutHere || keep != 0) && full > 0 {
+				r.Aborted = fmt.Sprintf("the pinned power-loss cut keeps bytes of journal entry %d behind a lost part of the same file", idx)
+				return false
+			}
+			if cutHere && keep < full {
+				short = true
+			}
+		}
+	}
+	return true
 }
